@@ -13,6 +13,7 @@ Oracle: by the C01 theorems the model's decode is the FM-94 value assignment, so
 well-formed input is the failing input.
 """
 import json
+import time
 
 from harness import core, tables_io
 from harness import coder_io as C
@@ -296,6 +297,7 @@ def run(ctx):
         if why:
             ctx.violation('corpus file %s: %s' % (path.split('/')[-1], why), {'file': path, 'why': why},
                           signature={'stage': 'corpus', 'file': path.split('/')[-1]})
+    t_b = time.time()
     treq = tables_io.group_request()
     # (b) generated over the default table group: the grammar of coder_io.TemplateGen
     count = 560 if quick else 10000
@@ -307,9 +309,10 @@ def run(ctx):
             c.idx += done
         done += len(cases)
         run_single(ctx, drv, treq, P.gen_values(drv, treq, cases, rng), 'grammar')
+    t_c = time.time()
     # (c) operator chains: bit-maps defined, recalled, cancelled, re-defined (own generator + the one of the C07 check)
     rc = ctx.rng('chains')
-    n_own, n_c07 = (130, 130) if quick else (2500, 2500)
+    n_own, n_c07 = (150, 150) if quick else (2500, 2500)
     for off in range(0, n_c07, 300):
         cases = c07_chain_cases(ctx, drv, treq, rc, min(300, n_c07 - off))
         if cases is None:
@@ -323,10 +326,12 @@ def run(ctx):
             c.idx += off
         run_single(ctx, drv, treq, P.gen_values(drv, treq, cases, rc), 'chains')
     # (d) the same descriptors under several table groups, one Decoder object
+    t_d = time.time()
     rf = ctx.rng('families')
-    n_fam = 110 if quick else 2000
+    n_fam = 150 if quick else 2000
     for off in range(0, n_fam, 120):
         run_families(ctx, drv, rf, min(120, n_fam - off))
+    ctx.notes.append('wall: corpus %.1fs, grammar %.1fs, chains %.1fs, families %.1fs' % (t_b - ctx.t0, t_c - t_b, t_d - t_c, time.time() - t_d))
     ctx.notes.append('implementation objects: %s (harness/objs.py: one aged Decoder/Encoder per option set, re-used for every case)' % objs.policy())
 
 
